@@ -29,12 +29,13 @@ CLAIM = {
             "MF_TR, QE_MF unconditionally; QE_DT / QE_TR as joint hydraulic + thermal fixed points, i.e. bidirectional); "
             "the mode table assigns exactly one mode to every admissible pair (16 patterns enumerated, model tied to the "
             "real create functions exhaustively); reported qext_w / deltat_k are the QEXT column and T_from - T_out; for a "
-            "series loop the sum of mean-c_p duties equals the reported pump heat plus an explicit heat-capacity "
-            "discretisation term (zero for constant c_p).",
+            "series loop and for any branched loop the sum of mean-c_p duties equals the reported pump heat plus explicit "
+            "heat-capacity discretisation terms (zero for constant c_p); results of elements that were not calculated are NaN.",
     "note": "Theorems over R use the standard-library real axioms (ClassicalDedekindReals.sig_forall_dec, sig_not_dec, "
             "FunctionalExtensionality.functional_extensionality_dep, Classical_Prop.classic via lra/field support). "
-            "Partial: loop closure is proved for a loop given as a list of branches in series; for branched loops the "
-            "identity with the node discretisation term is evaluated by the monitor only. The assembly of the hydraulic "
+            "Loop closure is proved for series loops (telescoping) and for arbitrary branched loops (any graph with mass "
+            "balance and mean-c_p mixing at every node) with explicit branch and node discretisation terms, both zero for "
+            "constant c_p; the monitor evaluates the same identity. The assembly of the hydraulic "
             "identity row is C01/C03's subject; here the generated hook values (1, 0, 0, 0) are the statement.",
     "technique": "Coq proof over generated kernels and hooks (T-tie) + exhaustive correspondence of the mode table (H-tie) "
                  "+ monitors on real pipeflow results",
@@ -126,6 +127,19 @@ def monitor_duties(ctx, spec, net, mode, numba):
     import pandapipes.idx_node as inode
     replay = {"spec": spec, "mode": mode, "use_numba": numba, "options": c10.TIGHT}
     bidir = mode == "bidirectional"
+    # ---- elements that were not calculated report nothing: no heat flow / temperature difference without a mass flow
+    for tbl in ("heat_consumer", "circ_pump_pressure", "circ_pump_mass"):
+        if tbl in net and len(net[tbl]) and "res_" + tbl in net:
+            res = net["res_" + tbl]
+            for lab in net[tbl].index:
+                if np.isnan(res.at[lab, "mdot_from_kg_per_s"]):
+                    ctx.count("not_calculated_rows")
+                    for col in ("qext_w", "deltat_k"):
+                        if not np.isnan(res.at[lab, col]):
+                            ctx.violation({"clause": "reported_quantities", "element": tbl, "column": col, "row": "not-calculated"},
+                                          "%s %s was not calculated (in_service=%s, no mass flow / temperatures reported) but reports %s = %r"
+                                          % (tbl, lab, bool(net[tbl].at[lab, "in_service"]), col, float(res.at[lab, col])),
+                                          dict(replay, element=tbl, index=int(lab)))
     # ---- consumers
     if "heat_consumer" in net and len(net.heat_consumer):
         for lab, row in net.heat_consumer.iterrows():
